@@ -291,6 +291,19 @@ func (c *CEnv) ident(e *CE, hint *Value) Value {
 			return c.result
 		}
 	}
+	if c.inOld && !c.calleeEnv && c.fr != nil && c.fr.fn != nil && !c.specMode {
+		// old(x) of a captured variable: the content of its cell at entry
+		for _, fv := range c.fr.fn.FreeVars {
+			if fv.Name() == name {
+				if v, ok := c.fr.env[fv]; ok {
+					if v.K == KPtr {
+						return c.x.loadLoc(c.heap(), v.Loc)
+					}
+					return v
+				}
+			}
+		}
+	}
 	if c.lookup != nil {
 		if v, ok := c.lookup(name); ok {
 			return v
